@@ -33,8 +33,7 @@ Definition effv (inh t : option ftype) : option ftype :=
 Lemma nodes_eq : forall inh i t w r p ks,
   nodes inh (Field i t w r p ks) = (i, effv inh t) :: flat_map (nodes (effv inh t)) ks.
 Proof.
-  intros inh i t w r p ks. unfold effv. simpl. f_equal.
-  induction ks as [|k rest IH]; simpl; [reflexivity|]. now rewrite IH.
+  intros inh i t w r p ks. reflexivity.
 Qed.
 
 Lemma existsb_flat_map : forall (A B : Type) (g : B -> bool) (h : A -> list B) l,
